@@ -1533,9 +1533,9 @@ Proof. intros Dd Hp W Dj BO NS. cbn zeta. intros i Hi.
   set (s1 := mkrs (rs_idents sf) (rs_bugs sf) [] [] None).
   assert (NS1 : no_stop c (t_users t) (listed t since) (rs_idents s1) (rs_bugs s1)).
   { intros j Hj. destruct (NS j Hj) as [A B]. cbn. split; [now rewrite (grown_ok c (t_users t) _ _ _ Gf)|].
-    destruct B as [B|B]; [left|now right]. destruct (Sf j (listed_in t since j Hj)) as [[d Pre] _]. apply ops_of_found. rewrite Pre.
+    destruct B as [B|B]; [left|now right]. destruct (Sf j (listed_in t since j Hj)) as [[d Pre] _]. apply ops_of_found. rewrite Pre. cbn [rs_bugs sq].
     unfold ops_of. destruct (find_bug (i_iid j) bugs) as [b|] eqn:FB; [|congruence].
-    destruct (BO j (listed_in t since j Hj) b FB) as [[o [rest [-> _]]] _]. cbn. discriminate. }
+    destruct (BO j (listed_in t since j Hj) b FB) as [[o [rest [Eo _]]] _]. rewrite Eo. intros Habs. discriminate Habs. }
   pose proof (clean_char c t p since s1 Dd Hp W Dj eq_refl BOf NS1) as C1. cbn zeta in C1.
   destruct (import_all c t p since s1) as [sr dr]. cbn [fst snd] in *. destruct C1 as [_ [_ [_ [_ C1]]]].
   destruct (C0 i Hi) as [Fc [_ [Nc Hc]]]. destruct (C1 i Hi) as [Fr [_ [Nr Hr]]].
@@ -1546,3 +1546,26 @@ Proof. intros Dd Hp W Dj BO NS. cbn zeta. intros i Hi.
   - intros [Hg|Hg]; [|now right]. destruct (Just _ Hg) as [Y|[Y|[e' [He' [NE' [Eq [P' K']]]]]]]; [now left|exfalso; now apply (ev_id_not_iid i e (Dj i Hi))|].
     assert (e' = e) by (apply (ev_id_inj i e' e (Dj i Hi)); auto). subst e'. right. destruct K' as [K'|K']; [now split|contradiction].
   - intros [Hg|Hg]; [|now right]. left. rewrite Pre, gids_app. apply in_or_app. now left. Qed.
+
+(* ------------------------------------------------------------------ the cursor; validity *)
+
+Lemma cursor_on_error c t p full now fault idents bugs cursor :
+  let o := run_round c t p full now fault idents bugs cursor in
+  has_error (out_res o) = true -> out_stored o = false /\ out_cursor o = cursor.
+Proof. cbn zeta. unfold run_round. destruct (import_all c t p _ _) as [s done]. cbn [out_res out_stored out_cursor]. intros ->. now split. Qed.
+
+Lemma failure_reported c t p (full : bool) now q idents bugs cursor : c_list_error c = true ->
+  rs_fault (fst (import_all c t p (if full then None else cursor) (mkrs idents bugs [] [] (Some q)))) = None ->
+  let o := run_round c t p full now (Some q) idents bugs cursor in
+  has_error (out_res o) = true /\ out_stored o = false /\ out_cursor o = cursor.
+Proof. intros LE Used. cbn zeta. unfold run_round.
+  pose proof (import_all_facts c t p (if full then None else cursor) (mkrs idents bugs [] [] (Some q)) LE) as H. cbn zeta in H.
+  destruct (import_all c t p _ _) as [s done]. cbn [fst snd] in *. destruct H as [_ [_ [K _]]].
+  assert (E : has_error (rs_res s) = true) by (apply K; split; [reflexivity|unfold pending; now rewrite Used]).
+  cbn [out_res out_stored out_cursor]. rewrite E. auto. Qed.
+
+Lemma valid_after c t p since s : c_dedupe_labels c = true -> wf_tracker t -> bugs_ok c t (rs_bugs s) ->
+  forall i, In i (t_issues t) -> Forall (fun o => op_valid c o = true) (ops_of (i_iid i) (rs_bugs (fst (import_all c t p since s)))).
+Proof. intros Dd W BO i Hi.
+  pose proof (import_all_sound c t p since s (rs_idents s) Dd W BO (grown_refl _ _ _)) as [_ [B _]].
+  unfold ops_of. destruct (find_bug (i_iid i) _) as [b|] eqn:FB; [|constructor]. now apply (B i Hi b FB). Qed.
